@@ -40,6 +40,10 @@ CHECKS["C12"] = (SEM, "every program QDEF x AGG-RULE x {min,max} x USER is run t
                  "every subset of the fact universe all answer sets of source and result are compared as multisets on "
                  "voc(P) with costs; one known finding (empty emitted domain) is matched by an instance-class matcher", "8/C12")
 
+CHECKS["C13"] = (SEM, "every program AT-MOST-ONE-DEFINITION x EXTRA x USE is run through optimize(sum_chains only); for every "
+                 "subset of the fact universe all answer sets of source and result are compared as multisets on voc(P) "
+                 "with costs; two known findings are matched by shape matchers", "8/C13")
+
 ALL = [f"C{i:02d}" for i in range(1, 21)]
 
 
